@@ -7,7 +7,7 @@ Line-protocol handlers for property C08 (the evaluator model over IEEE doubles):
 * `c08.eval <expr>`   → `(<value> <sideEffects> <sideEffects with pure metamethods> <multi>)`
                         value ::= nil | true | false | (num f<bits>) | (str x<hex>) | table | function | unknown
 * `c08.h <expr>`      → `(<h8> <tag>*)` — is the expression inside the proved region; the tags name the
-                        failing conditions (`numfmt` F3, `interp` F4, `refeq`)
+                        failing conditions (`numfmt` F3, `refeq`)
 * `c08.coerce x<hex>` → `(num f<bits>)` | `none` — `LuaValue::String(bytes).number_coercion()`
 * `c08.fmt f<bits>`   → `x<hex>` — `f64::to_string`
 * `c08.semnum f<bits>`→ `x<hex>` — the reference semantics' `tostring` of a number (diagnostics)
@@ -42,7 +42,7 @@ partial def why (e : Expr) : List String :=
   | .interp segs =>
     segs.flatMap fun
       | .s _ => []
-      | .v e => why e ++ (if !isUnknown (evaluate E e) || hasSideEffects E false e then [] else ["interp"])
+      | .v e => why e
   | .cast e _ => why e
   | .inst e _ => why e
   | .table entries =>
